@@ -4,6 +4,15 @@ import json, os
 ROOT = os.path.dirname(os.path.abspath(__file__))
 props = [json.loads(l) for l in open(os.path.join(ROOT, "properties.jsonl"))]
 TABLE = json.load(open(os.path.join(ROOT, "manifest_table.json")))
+import subprocess
+try:
+    log = subprocess.run(["git", "-C", "/repo", "log", "--format=%h %s"], capture_output=True, text=True).stdout
+    hook_commits = [l.split()[0] for l in log.splitlines() if l.split(" ", 1)[1].startswith("verif hooks")][::-1]
+    fix_commits = [l for l in log.splitlines() if l.split(" ", 1)[1].startswith("fix:")][::-1]
+except Exception:
+    hook_commits, fix_commits = [], []
+if hook_commits:
+    TABLE["_hook_commits"] = hook_commits
 checks, na = [], []
 for p in props:
     pid = p["id"]
@@ -39,7 +48,7 @@ m = {
     }],
     "checks": checks,
     "not_applicable": na,
-    "notes": "See DESIGN.md. known_findings.txt lists fixed defects (fix: commits in /repo) and recorded findings.",
+    "notes": "See DESIGN.md. known_findings.txt lists fixed defects (fix: commits in /repo: %s) and recorded findings." % "; ".join(fix_commits),
 }
 json.dump(m, open(os.path.join(ROOT, "MANIFEST.json"), "w"), indent=1)
 print("checks:", [c["property_id"] for c in checks], "na:", len(na))
